@@ -36,6 +36,6 @@ class GeneralSQDecomposition(BasePass):
             )
 
         utry = circuit.get_unitary()
-        new_circuit = Circuit(1)
+        new_circuit = Circuit(1, circuit.radixes)
         new_circuit.append_gate(general_gate, 0, general_gate.calc_params(utry))
         circuit.become(new_circuit)
